@@ -425,41 +425,17 @@ Lemma bind_no_crash {A B} (x : outcome A) (f : A -> outcome B) :
   is_crash x = false -> (forall a, x = Ok a -> is_crash (f a) = false) -> is_crash (bind x f) = false.
 Proof. intros Hx Hf. destruct x; cbn [bind]; [apply Hf; reflexivity|reflexivity|discriminate]. Qed.
 
-(* under the guard "no divisor evaluates to 0" the arithmetic actions never crash *)
-Theorem ceval_total env e : div_safe env e = true -> is_crash (ceval env e) = false.
+(* the arithmetic actions never crash (a zero divisor is a CalculationExpressionError) *)
+Theorem ceval_total env e : is_crash (ceval env e) = false.
 Proof.
-  induction e as [z|n|a IHa b IHb|a IHa b IHb|a IHa b IHb|a IHa b IHb|a IHa]; cbn [div_safe ceval]; intro H.
+  induction e as [z|n|a IHa b IHb|a IHa b IHb|a IHa b IHb|a IHa b IHb|a IHa]; cbn [ceval].
   - reflexivity.
   - apply cref_no_crash.
-  - apply andb_true_iff in H. destruct H as [Ha Hb].
-    apply bind_no_crash; [auto|]. intros x _. apply bind_no_crash; [auto|]. intros y _. reflexivity.
-  - apply andb_true_iff in H. destruct H as [Ha Hb].
-    apply bind_no_crash; [auto|]. intros x _. apply bind_no_crash; [auto|]. intros y _. reflexivity.
-  - apply andb_true_iff in H. destruct H as [Ha Hb].
-    apply bind_no_crash; [auto|]. intros x _. apply bind_no_crash; [auto|]. intros y _. reflexivity.
-  - apply andb_true_iff in H. destruct H as [H Hz]. apply andb_true_iff in H. destruct H as [Ha Hb].
-    apply bind_no_crash; [auto|]. intros x _. apply bind_no_crash; [auto|]. intros y Hy.
-    rewrite Hy in Hz. unfold calc_divide, py_floordiv.
-    destruct (y =? 0) eqn:E; [|reflexivity]. apply Z.eqb_eq in E. subst y. discriminate.
-  - auto.
-Qed.
-
-(* and conversely the ONLY crash of a constant expression is a division by zero *)
-Theorem ceval_crash_is_div_zero env e x : ceval env e = Crash x -> x = ZeroDivisionError.
-Proof.
-  revert x. induction e as [z|n|a IHa b IHb|a IHa b IHb|a IHa b IHb|a IHa b IHb|a IHa];
-    cbn [ceval]; intros x H.
-  - discriminate.
-  - pose proof (cref_no_crash env n) as Hn. rewrite H in Hn. discriminate.
-  - destruct (ceval env a); cbn [bind] in H; [|discriminate|auto].
-    destruct (ceval env b); cbn [bind] in H; [discriminate|discriminate|auto].
-  - destruct (ceval env a); cbn [bind] in H; [|discriminate|auto].
-    destruct (ceval env b); cbn [bind] in H; [discriminate|discriminate|auto].
-  - destruct (ceval env a); cbn [bind] in H; [|discriminate|auto].
-    destruct (ceval env b); cbn [bind] in H; [discriminate|discriminate|auto].
-  - destruct (ceval env a); cbn [bind] in H; [|discriminate|auto].
-    destruct (ceval env b) as [y| |]; cbn [bind] in H; [|discriminate|auto].
-    unfold calc_divide, py_floordiv in H. destruct (y =? 0); inversion H; reflexivity.
+  - apply bind_no_crash; [auto|]. intros x _. apply bind_no_crash; [auto|]. intros y _. reflexivity.
+  - apply bind_no_crash; [auto|]. intros x _. apply bind_no_crash; [auto|]. intros y _. reflexivity.
+  - apply bind_no_crash; [auto|]. intros x _. apply bind_no_crash; [auto|]. intros y _. reflexivity.
+  - apply bind_no_crash; [auto|]. intros x _. apply bind_no_crash; [auto|]. intros y _.
+    unfold calc_divide, py_floordiv. destruct (y =? 0); reflexivity.
   - auto.
 Qed.
 
@@ -473,9 +449,7 @@ Definition is_parser_error {A} (x : outcome A) : bool :=
 Lemma enum_items_total : forallb (fun i => is_parser_error (enum_item_outcome i)) enum_items = true.
 Proof. vm_compute. reflexivity. Qed.
 
-Lemma message_items_total_guarded :
-  forallb (fun i => match i with IImport => true | _ => is_parser_error (message_item_outcome i) end)
-          message_items = true.
+Lemma message_items_total_b : forallb (fun i => is_parser_error (message_item_outcome i)) message_items = true.
 Proof. vm_compute. reflexivity. Qed.
 
 Lemma actions_index_total : bad_actions = [].
@@ -491,11 +465,8 @@ Proof.
 Qed.
 
 Lemma message_items_total :
-  forall i, In i message_items -> i <> IImport -> is_parser_error (message_item_outcome i) = true.
-Proof.
-  intros i Hi Hn. pose proof message_items_total_guarded as H. rewrite forallb_forall in H.
-  specialize (H i Hi). destruct i; try exact H; contradiction.
-Qed.
+  forall i, In i message_items -> is_parser_error (message_item_outcome i) = true.
+Proof. apply forallb_forall. exact message_items_total_b. Qed.
 
 Lemma actions_indices_in_range :
   forall a len acc, In a actions -> In len (snd (fst a)) -> In acc (snd a) ->
@@ -572,49 +543,23 @@ Fixpoint go_defaults (l : list (Z * ty)) : outcome unit :=
   | kf :: r => bind (py_render_defaults (snd kf)) (fun _ => go_defaults r)
   end.
 
-Fixpoint go_noempty (l : list (Z * ty)) : bool :=
-  match l with
-  | [] => true
-  | kf :: r => no_empty_enum (snd kf) && go_noempty r
-  end.
-
 Lemma py_render_defaults_msg x fs : py_render_defaults (TMsg x fs) = go_defaults fs.
 Proof. cbn [py_render_defaults]. induction fs as [|kf r IH]; [reflexivity|]. cbn [go_defaults]. rewrite <- IH. reflexivity. Qed.
 
-Lemma no_empty_enum_msg x fs : no_empty_enum (TMsg x fs) = go_noempty fs.
-Proof. cbn [no_empty_enum]. induction fs as [|kf r IH]; [reflexivity|]. cbn [go_noempty]. rewrite <- IH. reflexivity. Qed.
+Lemma enum_default_guarded : py_enum_default_guarded = true.
+Proof. vm_compute. reflexivity. Qed.
 
-Theorem py_render_defaults_total t : no_empty_enum t = true -> py_render_defaults t = Ok tt.
+(* the Python renderer's defaults are total: a memberless enum has the default 0 *)
+Theorem py_render_defaults_total t : py_render_defaults t = Ok tt.
 Proof.
-  induction t as [| | n | n | n ms | t IH | x c e IH | x fs IH] using ty_ind'; intro H.
+  induction t as [| | n | n | n ms | t IH | x c e IH | x fs IH] using ty_ind'.
   1-4: reflexivity.
-  - cbn [py_render_defaults no_empty_enum] in *. unfold py_enum_default.
-    destruct py_enum_default_guarded; [reflexivity|]. destruct ms; [discriminate|reflexivity].
-  - cbn [py_render_defaults no_empty_enum] in *. auto.
-  - cbn [py_render_defaults no_empty_enum] in *. auto.
-  - rewrite py_render_defaults_msg. rewrite no_empty_enum_msg in H.
+  - cbn [py_render_defaults]. unfold py_enum_default. rewrite enum_default_guarded. reflexivity.
+  - cbn [py_render_defaults]. exact IH.
+  - cbn [py_render_defaults]. exact IH.
+  - rewrite py_render_defaults_msg.
     induction fs as [|kf r IHr]; [reflexivity|].
-    cbn [go_defaults go_noempty] in *. apply andb_true_iff in H. destruct H as [H1 H2].
-    inversion IH as [|? ? Hk Hr]; subst. rewrite (Hk H1). cbn [bind]. apply IHr; assumption.
-Qed.
-
-(* exactly the guard: an empty enum anywhere among the rendered types crashes *)
-Theorem py_render_defaults_crash t :
-  py_enum_default_guarded = false -> no_empty_enum t = false -> py_render_defaults t = Crash IndexError.
-Proof.
-  intro Hg.
-  induction t as [| | n | n | n ms | t IH | x c e IH | x fs IH] using ty_ind'; intro H.
-  1-4: discriminate H.
-  - cbn [py_render_defaults no_empty_enum] in *. unfold py_enum_default. rewrite Hg.
-    destruct ms; [reflexivity|discriminate H].
-  - cbn [py_render_defaults no_empty_enum] in *. auto.
-  - cbn [py_render_defaults no_empty_enum] in *. auto.
-  - rewrite py_render_defaults_msg. rewrite no_empty_enum_msg in H.
-    induction fs as [|kf r IHr]; [discriminate|].
-    cbn [go_defaults go_noempty] in *. inversion IH as [|? ? Hk Hr]; subst.
-    destruct (no_empty_enum (snd kf)) eqn:E.
-    + rewrite (py_render_defaults_total _ E). cbn [bind]. apply IHr; assumption.
-    + rewrite (Hk eq_refl). reflexivity.
+    cbn [go_defaults]. inversion IH as [|? ? Hk Hr]; subst. rewrite Hk. cbn [bind]. apply IHr; assumption.
 Qed.
 
 Lemma render_ints_total zs : ints_small zs = true -> render_ints zs = Ok tt.
@@ -628,10 +573,10 @@ Proof.
 Qed.
 
 Theorem render_total l t consts :
-  no_empty_enum t = true -> ints_small consts = true -> render l t consts = Ok tt.
+  ints_small consts = true -> render l t consts = Ok tt.
 Proof.
-  intros Ht Hc. unfold render. rewrite (render_ints_total consts Hc). cbn [bind].
-  destruct l; try reflexivity. apply py_render_defaults_total. exact Ht.
+  intros Hc. unfold render. rewrite (render_ints_total consts Hc). cbn [bind].
+  destruct l; try reflexivity. apply py_render_defaults_total.
 Qed.
 
 (* ====================================================================================== *)
